@@ -27,22 +27,25 @@ Import ListNotations.
 From ZI Require Import Lib.Util.
 From ZI Require Export Model.Decl.
 
-Inductive node := NI (i : iface) | NC (c : cls) | NT.
+(* NM l: implementedBy(a custom metaclass), which names the interfaces l directly *)
+Inductive node := NI (i : iface) | NC (c : cls) | NT | NM (l : list iface).
 Definition node_eqb (a b : node) : bool :=
   match a, b with
   | NI i, NI j => Nat.eqb i j
   | NC c, NC d => Nat.eqb c d
   | NT, NT => true
+  | NM l, NM m => lnat_eqb l m
   | _, _ => false
   end.
 Definition lnode_eqb := list_eqb node_eqb.
 
-Inductive kclsref := RNone | RType | RClass (c : cls).
+Inductive kclsref := RNone | RType | RClass (c : cls) | RMeta (l : list iface).
 Definition kclsref_eqb (a b : kclsref) : bool :=
   match a, b with
   | RNone, RNone => true
   | RType, RType => true
   | RClass c, RClass d => Nat.eqb c d
+  | RMeta l, RMeta m => lnat_eqb l m
   | _, _ => false
   end.
 
@@ -52,7 +55,7 @@ Inductive kgot := GNone | GImplements | GSpec (bases : list node).
 Inductive korigin := OClass (c : cls) | OProv (p : kprov).
 
 Record kcls := mkKC { kc_pybases : list cls; kc_declared : list node; kc_inherit : bool;
-                      kc_bases : list node; kc_provides : list node }.
+                      kc_bases : list node; kc_provides : list node; kc_meta : option (list iface) }.
 Record kinst := mkKI { ki_cls : cls; ki_live : bool; ki_provides : option (list node) }.
 Record kstate := mkK { kclasses : list kcls; kinsts : list kinst;
                        kcache : list (kkey * list node); kexc : option nat }.
@@ -60,8 +63,12 @@ Record kstate := mkK { kclasses : list kcls; kinsts : list kinst;
 (* ---- embedding of the model's states *)
 Definition spec_bases (r : crec) : list node :=
   map NI (c_decl r) ++ (if c_inherit r then map NC (dedup (c_bases r)) else []).
+Definition meta_ref (m : option (list iface)) : kclsref := match m with Some l => RMeta l | None => RType end.
+Definition p_implementedBy (r : kclsref) : node :=
+  match r with RClass c => NC c | RMeta l => NM l | _ => NT end.
 Definition embed_cls (r : crec) : kcls :=
-  mkKC (c_bases r) (map NI (c_decl r)) (c_inherit r) (spec_bases r) (map NI (c_cprov r) ++ [NT]).
+  mkKC (c_bases r) (map NI (c_decl r)) (c_inherit r) (spec_bases r)
+       (map NI (c_cprov r) ++ [p_implementedBy (meta_ref (c_meta r))]) (c_meta r).
 Definition embed_inst (r : irec) : kinst :=
   mkKI (i_cls r) (i_live r) (option_map (fun k => map NI k ++ [NC (i_cls r)]) (i_prov r)).
 Definition embed_entry (e : ckey * list iface) : kkey * list node :=
@@ -71,8 +78,6 @@ Definition embed_exc (st : state) (x : option nat) : kstate :=
 Definition embed (st : state) : kstate := embed_exc st None.
 
 (* ---- pure helpers *)
-Definition p_implementedBy (r : kclsref) : node :=
-  match r with RClass c => NC c | _ => NT end.
 Definition p_normalizeargs (l : list node) : list node := l.
 Definition p_is_root (x : node) : bool := false.       (* ``x is Interface``: never a numbered interface *)
 Definition p_truth (l : list node) : bool := match l with [] => false | _ => true end.
@@ -104,9 +109,9 @@ Definition kset (s : kstate) (spec : node) (f : kcls -> kcls) : kstate :=
 Definition p_declared (s : kstate) (spec : node) : list node :=
   match kget s spec with Some r => kc_declared r | None => [] end.
 Definition p_set_declared (s : kstate) (spec : node) (l : list node) : kstate :=
-  kset s spec (fun r => mkKC (kc_pybases r) l (kc_inherit r) (kc_bases r) (kc_provides r)).
+  kset s spec (fun r => mkKC (kc_pybases r) l (kc_inherit r) (kc_bases r) (kc_provides r) (kc_meta r)).
 Definition p_set_inherit_none (s : kstate) (spec : node) : kstate :=
-  kset s spec (fun r => mkKC (kc_pybases r) (kc_declared r) false (kc_bases r) (kc_provides r)).
+  kset s spec (fun r => mkKC (kc_pybases r) (kc_declared r) false (kc_bases r) (kc_provides r) (kc_meta r)).
 Definition p_inherit_is_set (s : kstate) (spec : node) : bool :=
   match kget s spec with Some r => kc_inherit r | None => false end.
 Definition p_inherit_pybases (s : kstate) (spec : node) : list kclsref :=
@@ -117,6 +122,7 @@ Fixpoint kflat_f (g : igraph) (kcs : list kcls) (fuel : nat) (n : node) : list i
   match n with
   | NI i => ups g i
   | NT => []
+  | NM l => closure g l
   | NC c => match fuel with
             | 0 => []
             | S f => match nth_error kcs c with
@@ -187,7 +193,7 @@ Definition p_set_bases (chg : igraph -> kstate -> kprov -> korigin -> kstate)
       match nth_error (kclasses s) c with
       | None => s
       | Some r =>
-          let s1 := mkK (upd (kclasses s) c (mkKC (kc_pybases r) (kc_declared r) (kc_inherit r) bases (kc_provides r)))
+          let s1 := mkK (upd (kclasses s) c (mkKC (kc_pybases r) (kc_declared r) (kc_inherit r) bases (kc_provides r) (kc_meta r)))
                         (kinsts s) (kcache s) (kexc s) in
           fold_left (fun acc e =>
                        match fst (fst e) with
@@ -201,22 +207,25 @@ Definition p_set_bases (chg : igraph -> kstate -> kprov -> korigin -> kstate)
 (* Provides.__init__: Declaration.__init__(self, *self._add_interfaces_to_cls(interfaces, cls)) *)
 Definition p_new_provides (add : igraph -> kstate -> list node -> kclsref -> list node)
            (g : igraph) (s : kstate) (k : kkey) : kprov := (k, add g s (snd k) (fst k)).
-(* ClassProvides.__init__ (implementedBy(metacls) implies no numbered interface) *)
-Definition p_new_class_provides (s : kstate) (ob : target) (metacls : kclsref) (l : list node) : kprov :=
-  ((metacls, l), l ++ [p_implementedBy metacls]).
+(* ClassProvides.__init__: Declaration.__init__(self, *self._add_interfaces_to_cls(interfaces, metacls)) *)
+Definition p_new_class_provides (add : igraph -> kstate -> list node -> kclsref -> list node)
+           (g : igraph) (s : kstate) (ob : target) (metacls : kclsref) (l : list node) : kprov :=
+  ((metacls, l), add g s l metacls).
 
 (* ---- objects *)
 Definition p_getattr_class (s : kstate) (ob : target) : kclsref :=
   match ob with
   | TInst o => match nth_error (kinsts s) o with Some r => RClass (ki_cls r) | None => RNone end
-  | TCls _ => RType
+  | TCls c => match nth_error (kclasses s) c with Some r => meta_ref (kc_meta r) | None => RType end
   end.
 Definition p_getattr_class_of_class (r : kclsref) : kclsref :=
   match r with RNone => RNone | _ => RType end.
 Definition p_type_of (s : kstate) (ob : target) : kclsref := p_getattr_class s ob.
 Definition p_is_none_ref (r : kclsref) : bool := match r with RNone => true | _ => false end.
 Definition p_isinstance_type (ob : target) : bool := match ob with TCls _ => true | _ => false end.
-Definition p_issubclass_type (r : kclsref) : bool := match r with RType => true | _ => false end.
+Definition p_issubclass_type (r : kclsref) : bool := match r with RType | RMeta _ => true | _ => false end.
+(* ``'__provides__' in cls.__dict__`` at the moment implementedBy(cls) is first computed *)
+Definition p_has_own_provides (s : kstate) (ob : target) : bool := false.
 Definition p_issubclass_module (r : kclsref) : bool := false.
 Definition p_hasattr_name (ob : target) : bool := match ob with TCls _ => true | _ => false end.
 Definition p_note_module_name (s : kstate) (v : kprov) (ob : target) : kstate := s.
@@ -229,7 +238,7 @@ Definition p_set_provides (s : kstate) (ob : target) (v : kprov) : kstate :=
                                (kcache s) (kexc s)
                | None => s
                end
-  | TCls c => kset s (NC c) (fun r => mkKC (kc_pybases r) (kc_declared r) (kc_inherit r) (kc_bases r) (snd v))
+  | TCls c => kset s (NC c) (fun r => mkKC (kc_pybases r) (kc_declared r) (kc_inherit r) (kc_bases r) (snd v) (kc_meta r))
   end.
 (* ``getattr(object, '__provides__', None)``: an instance without its own __provides__ gets the
    class's ClassProvides descriptor, which answers with the Implements of the class *)
